@@ -5,7 +5,7 @@
    every tree built by jbn_from_json / from the binary form is good (C16_parsed_documents_good). *)
 Require Import ZArith List Bool Permutation.
 Require Import IW.Lib.CInt IW.UT.Conv IW.JSON.Val IW.JSON.Patch IW.JSON.PatchSpec IW.JSON.Patch_proofs
-               IW.JSON.Mem IW.JSON.Merge IW.JSON.Merge_proofs IW.Gen.Facts.
+               IW.JSON.Mem IW.JSON.Merge IW.JSON.Merge_proofs IW.Gen.Facts IW.JSON.Binn IW.JSON.WriteBack IW.JSON.WriteBack_proofs.
 Import ListNotations. Local Open Scope Z_scope.
 
 Theorem C16_parsed_documents_good : forall v kl key, good (of_val kl key v) /\ val (of_val kl key v) = v.
@@ -119,3 +119,50 @@ Example C16_ex_heap_no_leak :
   | _ => False
   end.
 Proof. vm_compute. split; reflexivity. Qed.
+
+(* ================================================================== the write-back step of jbl_merge_patch / jbl_merge_patch_jbl
+   (added after seeded change round5/C16: _jbl_from_node_impl dropped a refused member and went on, the call returned 0).
+   C16_merge_binary_rfc7386 above assumes a writer that never fails; the real one (WriteBack.v: wb_enc = _jbl_from_node_impl with
+   the member rule of the binn object, see C15_binn_name_clash_is_case_fold / C15_representable_names) fails on names longer than
+   JP_BINN_KEY_MAX bytes and on names equal to an earlier one up to ASCII letter case.  For ALL (target, patch): *)
+Theorem C16_merge_writeback : forall b patch, good b -> good patch ->
+  jbl_merge_model b patch =
+  if representable (merge_spec (Some (val b)) (val patch))
+  then (RcOk, of_val 0 [] (merge_spec (Some (val b)) (val patch)))
+  else (RcCreation, b).
+Proof. exact merge_writeback. Qed.
+Print Assumptions C16_merge_writeback.
+
+(* success => the document is MergePatch(target, patch), no member left out *)
+Theorem C16_merge_success_is_rfc7386 : forall b patch b', good b -> good patch ->
+  jbl_merge_model b patch = (RcOk, b') -> val b' = merge_spec (Some (val b)) (val patch) /\ good b'.
+Proof. exact merge_success_is_rfc7386. Qed.
+Print Assumptions C16_merge_success_is_rfc7386.
+
+(* failure => the document is the one passed in *)
+Theorem C16_merge_failure_unchanged : forall b patch,
+  fst (jbl_merge_model b patch) <> RcOk -> snd (jbl_merge_model b patch) = b.
+Proof. exact merge_failure_unchanged. Qed.
+Print Assumptions C16_merge_failure_unchanged.
+
+(* {"name":"n"} with {"Name":"N","z":2} (the seeder's scenario: the refused member is not the last one): MergePatch has both
+   names, the binary form cannot hold it, JBL_ERROR_CREATION and the document as before; with {"Name":"N","name":null} the
+   old name goes away first and the call succeeds *)
+Example C16_ex_writeback_twin :
+  let name := [110;97;109;101] in let Name := [78;97;109;101] in
+  let doc := of_val 0 [] (JObj [(name, s [110])]) in
+  let p1 := of_val 0 [] (JObj [(Name, s [78]); ([122], JI64 2)]) in
+  let p2 := of_val 0 [] (JObj [(Name, s [78]); (name, JNull)]) in
+  good doc /\ good p1 /\ good p2 /\
+  merge_spec (Some (val doc)) (val p1) = JObj [(name, s [110]); (Name, s [78]); ([122], JI64 2)] /\
+  val (jbn_merge_patch_node doc p1) = JObj [(name, s [110]); (Name, s [78]); ([122], JI64 2)] /\
+  jbl_merge_model doc p1 = (RcCreation, doc) /\
+  jbl_merge_model doc p2 = (RcOk, of_val 0 [] (JObj [(Name, s [78])])).
+Proof. cbv zeta. split; [apply of_val_good | split; [apply of_val_good | split; [apply of_val_good | repeat split; vm_compute; reflexivity]]]. Qed.
+
+(* a 256-byte name at depth 2, in an object that is not the last member of its parent *)
+Example C16_ex_writeback_long_name :
+  let doc := of_val 0 [] (JObj [([97], JObj [([120], JI64 1)]); ([98], JI64 2)]) in
+  let p n := of_val 0 [] (JObj [([97], JObj [(repeat 107 n, JI64 3); ([122], JI64 4)])]) in
+  (exists b', jbl_merge_model doc (p 255%nat) = (RcOk, b')) /\ jbl_merge_model doc (p 256%nat) = (RcCreation, doc).
+Proof. cbv zeta. split; [eexists|]; vm_compute; reflexivity. Qed.
